@@ -287,13 +287,15 @@ Proof.
     destruct g as [|g1]; [lia|]. apply ploop_stop, Hst.
 Qed.
 
-Lemma pr_length c e : 2 * size e <= length (pr c e) + 1.
+Lemma pr_length c e : size e <= length (pr c e).
 Proof.
   revert c. induction e as [v|x|a IHa|a IHa b IHb|a IHa b IHb|op a IHa b IHb]; intro c; rewrite pr_body;
     destruct (wraps c _); cbn [wrap body size length]; rewrite ?app_length; cbn [length];
-    try specialize (IHa CRight); try lia.
-  all: try (specialize (IHb CRight); pose proof (IHa CLeft); pose proof (IHa COperand); pose proof (IHb COperand);
-            specialize (IHa CLeft); rewrite ?app_length; cbn [length]; lia).
+    rewrite ?app_length; cbn [length].
+  all: try lia.
+  all: try (specialize (IHa CRight); lia).
+  all: try (pose proof (IHa CLeft); pose proof (IHb CRight); lia).
+  all: try (pose proof (IHa COperand); pose proof (IHb COperand); lia).
 Qed.
 
 (* C04 / C12: printing a condition and parsing it back gives the SAME tree, for every tree *)
@@ -302,7 +304,7 @@ Proof.
   unfold parse, print. rewrite pr_right.
   pose proof (pr_length CRight e) as Hl. rewrite pr_right in Hl.
   rewrite <- (app_nil_r (body e)) at 2.
-  rewrite (parse_body (size e) e (le_n _) (2 * length (body e) + 2) 1 []).
+  rewrite (parse_body (size e) e (le_n _) (4 * length (body e) + 4) 1 []).
   - reflexivity.
   - lia.
   - apply fits_one.
